@@ -5,7 +5,7 @@ usage: tools/run_seeded.py [id ...]"""
 import json, os, subprocess, sys, re
 ROOT = os.path.dirname(os.path.dirname(os.path.abspath(__file__)))
 SD = os.path.join(ROOT, "seeded")
-EXTRA = {"C01-m1": ["C12"], "C01-m2": ["C14"], "C05-m1": ["C11"], "C06-m1": ["C07"]}
+EXTRA = {"R2-m1": ["C16"], "R2-m2": ["C16"], "R5-m1": ["C16", "C07"], "R5-m2": ["C16"], "C13-m2": ["C04"], "C16-m2": ["C05", "C06"], "C01-m1": ["C12"], "C01-m2": ["C14"], "C05-m1": ["C11"], "C06-m1": ["C07"]}
 ids = sys.argv[1:] or sorted(d for d in os.listdir(SD) if os.path.isdir(os.path.join(SD, d)))
 rows = []
 for i in ids:
